@@ -126,6 +126,32 @@ func main() {
 				fn.WriteTo(os.Stdout)
 			}
 		}
+	case "methods":
+		// prints the methods clauses for every type of the repository with exported methods
+		ld, err := loadRepo(repoDir, filepath.Join(verifDir, "engine", "contracts"))
+		if err != nil {
+			fmt.Fprintln(os.Stderr, err)
+			os.Exit(2)
+		}
+		var pkgs []string
+		for _, p := range ld.prog.AllPackages() {
+			if strings.HasPrefix(p.Pkg.Path(), "github.com/go-netty/") {
+				pkgs = append(pkgs, p.Pkg.Path())
+			}
+		}
+		sort.Strings(pkgs)
+		for _, pk := range pkgs {
+			sets := ld.exportedMethodSets(pk)
+			var ns []string
+			for n := range sets {
+				ns = append(ns, n)
+			}
+			sort.Strings(ns)
+			fmt.Println("##", pk)
+			for _, n := range ns {
+				fmt.Printf("//@ methods %s: %s\n", n, strings.Join(sets[n], " "))
+			}
+		}
 	case "list":
 		ld, err := loadRepo(repoDir, filepath.Join(verifDir, "engine", "contracts"))
 		if err != nil {
